@@ -356,7 +356,7 @@ func TestVerifC17Views(t *testing.T) {
 							return
 						}
 						c.Violation(k.key(), k.key()+": "+msg, k)
-						if c.NumViolations() >= 20 {
+						if c.NumViolations() >= 3 {
 							c.Add("evaluations", evals)
 							return
 						}
